@@ -302,7 +302,7 @@ func run(raw json.RawMessage, env *rt.Env) rt.Result {
 	orgName := map[int]string{}
 	for i, s := range c.Steps {
 		var err error
-		sig = append(sig, s.A)
+		sig = append(sig, s.A+string(mustJSON(s.X)))
 		switch s.A {
 		case "createOrg":
 			o := &influxdb.Organization{Name: w.name(argStr(s.X[0]))}
